@@ -1,5 +1,6 @@
 """C18 - anonymous multi-hop locks: consistent setup and right-to-left release cascade."""
 import random, sys
+from ..par import SafePool
 from ..common import Report, REPO
 from .. import scncheck
 from ..gen.progs import push, op
@@ -177,7 +178,7 @@ def main(tier: str, seed: int) -> int:
     scncheck.mc(rep, 'Amhl', 'mc', INV, run_mc, consts={'MaxHops': 5 if quick else 6, 'MaxRefundHops': 4 if quick else 5}, workers=8)
     import multiprocessing as mp
     n = 2000 if quick else 12000
-    with mp.get_context('fork').Pool(14) as pool:
+    with SafePool(14) as pool:
         cases = [c for ch in pool.map(record_random, [(seed * 67 + i, n // 28) for i in range(28)]) for c in ch]
     scncheck.judge(rep, 'Amhl', [], cases, 'random AMHL attempts', consts={'MaxHops': 0, 'MaxRefundHops': 0})
     return rep.finish()
